@@ -1070,6 +1070,11 @@ func emitTranslated(p *pkgInfo) (out string, err error) {
 		b.WriteString(t.impFunction(fn, isigs))
 		b.WriteString("\n")
 	}
+	b.WriteString("/-! ### shrink.go: `minimize` and the minimizer -/\n\n")
+	for _, fn := range []string{"minimizer.accept", "minimizer.rShift", "minimizer.unsetBits", "minimizer.sortBits", "minimizer.binSearch", "minimize"} {
+		b.WriteString(t.impFunction(fn, isigs))
+		b.WriteString("\n")
+	}
 	b.WriteString("end Rapid.Translated\n")
 	return b.String(), nil
 }
